@@ -128,12 +128,189 @@ def grid_oracle(chk, grids, info):
     return n
 
 
+# ---------------------------------------------------------------------------------------------------------------------
+# refinement: theories/Model_Refine.v (PrimFloat instance) against the real refinePointNewton / refinePoint / getRefined
+METHOD_COQ = {"newton": "MNewton", "line": "MLine", "integrate": "MIntegrate", "integrate+newton": "MIntegrateNewton", "none": "MNone"}
+
+
+def _poly(coef, R, Z):
+    a, b, c, d, e = coef
+    return a * R * R + b * Z * Z + c * R * Z + d * R + e * Z
+
+
+def refine_cases(rng, n):
+    cases = []
+    hx = lambda x: float(x).hex()
+
+    def field():
+        k = rng.random()
+        if k < 0.5:      # tilted bowl
+            coef = [round(rng.uniform(0.3, 2.0), 3), round(rng.uniform(0.3, 2.0), 3), round(rng.uniform(-0.5, 0.5), 3), round(rng.uniform(-1, 1), 3), round(rng.uniform(-1, 1), 3)]
+        elif k < 0.8:    # saddle (X-point like)
+            coef = [round(rng.uniform(0.3, 2.0), 3), -round(rng.uniform(0.3, 2.0), 3), round(rng.uniform(-0.5, 0.5), 3), 0.0, round(rng.uniform(-0.2, 0.2), 3)]
+        else:            # nearly linear
+            coef = [round(rng.uniform(-0.05, 0.05), 3), 0.0, 0.0, round(rng.uniform(0.5, 2), 3), round(rng.uniform(-2, 2), 3)]
+        return coef
+
+    def start(coef):
+        R, Z = rng.uniform(1.0, 3.0), rng.uniform(-1.0, 1.0)
+        gR = 2 * coef[0] * R + coef[2] * Z + coef[3]
+        gZ = 2 * coef[1] * Z + coef[2] * R + coef[4]
+        return R, Z, gR, gZ
+
+    for i in range(n):
+        coef = field()
+        R, Z, gR, gZ = start(coef)
+        atol = rng.choice([2e-8, 1e-6, 1e-10, 1e-3])
+        k = rng.random()
+        if k < 0.45:     # the tangent has a component along the gradient: Newton converges (or not, for large offsets)
+            mix = rng.uniform(-0.6, 0.6)
+            t = (gR + mix * gZ, gZ - mix * gR)
+            sc = rng.choice([1.0, 0.1, 3.0]) / max(1e-3, (t[0] ** 2 + t[1] ** 2) ** 0.5)
+            t = (t[0] * sc, t[1] * sc)
+            s_true = rng.choice([1e-4, 1e-2, 0.1, 0.5, -0.3])
+            psival = _poly(coef, R + s_true * t[0], Z + s_true * t[1])
+        elif k < 0.64:   # the line touches the flux surface (double root): linear convergence, 6-16 iterations, so that the
+            # iteration limit (count > 10) decides between convergence and SolutionError
+            nrm = max(1e-3, (gR * gR + gZ * gZ) ** 0.5)
+            sc = rng.choice([0.3, 1.0, 2.0])
+            t = (-gZ / nrm * sc, gR / nrm * sc)
+            aim = rng.random() < 0.6
+            s0 = rng.choice([0.3, 0.5, 1.0]) if aim else rng.choice([0.003, 0.01, 0.03, 0.1, 0.3, 1.0])
+            psival = _poly(coef, R, Z)
+            R, Z = R - s0 * t[0], Z - s0 * t[1]
+            atol = rng.choice([2e-8, 1e-6, 1e-10, 1e-4])
+            if aim:
+                # aim at a given number of iterations: |f| falls by about 4 per iteration (f ~ (s - s0)^2), iteration kstar is the
+                # first below atol; the code allows 12 iterations
+                kstar = rng.choice([10, 11, 12, 13, 14])
+                atol = abs(_poly(coef, R, Z) - psival) / 4.0 ** kstar * 1.8
+        elif k < 0.7:    # already on the surface: early exit (relative tolerance)
+            t = (rng.uniform(-1, 1), rng.uniform(-1, 1))
+            psival = _poly(coef, R, Z) * (1 + rng.choice([0.0, 1e-12, 0.3 * atol, 3 * atol]))
+        elif k < 0.85:   # tangent along the contour: derivative ~ 0, diverges / overshoots
+            t = (-gZ, gR)
+            psival = _poly(coef, R, Z) + rng.choice([1e-3, 0.1])
+        else:            # unreachable value or unattainable tolerance: runs into the iteration limit
+            t = (gR, gZ)
+            psival = _poly(coef, R, Z) + rng.choice([-50.0, 0.01])
+            atol = rng.choice([1e-300, 1e-19, atol])
+        base = dict(coef=[hx(x) for x in coef], psival=hx(psival), atol=hx(atol), p=[hx(R), hx(Z)], t=[hx(t[0]), hx(t[1])])
+        j = i % 10
+        if j < 6:
+            cases.append(dict(base, kind="newton"))
+        elif j < 8:
+            ms = [rng.choice(list(METHOD_COQ)) for _ in range(rng.randint(1, 4))]
+            scr = lambda: ["fail"] if rng.random() < 0.5 else ["done", hx(R + rng.uniform(-1e-3, 1e-3)), hx(Z + rng.uniform(-1e-3, 1e-3))]
+            cases.append(dict(base, kind="point", methods=ms, integrate=scr(), line=scr()))
+        else:
+            npts = rng.choice([1, 2, 2, 3, 4, 5, 7])
+            # points strung roughly along the contour through (R, Z), slightly off it
+            nrm = max(1e-3, (gR * gR + gZ * gZ) ** 0.5)
+            pts = []
+            for m in range(npts):
+                u = 0.05 * (m - npts / 2)
+                off = rng.uniform(-2e-3, 2e-3)
+                pts.append([hx(R - u * gZ / nrm + off * gR / nrm), hx(Z + u * gR / nrm + off * gZ / nrm)])
+            ms = rng.choice([["newton"], ["newton", "none"], ["none"], ["none", "newton"]])
+            si = rng.randrange(npts)
+            ei = rng.randrange(si, npts)
+            cases.append(dict(base, kind="contour", pts=pts, methods=ms, skip=rng.random() < 0.5, si=si, ei=ei, psival=hx(_poly(coef, R, Z))))
+    return cases
+
+
+def refine_correspondence(chk, n):
+    """run the PrimFloat instance of the model and the real methods on the same inputs; outcomes must agree bit for bit"""
+    fl = lambda h: common.fhex(float.fromhex(h))
+    rng = random.Random(chk.seed + 101)
+    cases = refine_cases(rng, n)
+    rc, res, o, e = common.run_impl_json("impl/refine.py", dict(cases=cases), timeout=600)
+    if res is None or len(res) != len(cases):
+        chk.tie_broken("impl/refine.py", f"implementation run failed rc={rc}: {(o + e)[-1000:]}")
+        return 0
+    items, stats = [], {}
+    for c, r in zip(cases, res):
+        if r[0] == "error":
+            chk.tie_broken("impl/refine.py:case", f"unexpected exception {r[1]} on {c}")
+            continue
+        stats[f"{c['kind']}:{r[0]}"] = stats.get(f"{c['kind']}:{r[0]}", 0) + 1
+        head = f"{' '.join(fl(x) for x in c['coef'])} {fl(c['psival'])} {fl(c['atol'])}"
+        pt = lambda a: f"(mk2 {fl(a[0])} {fl(a[1])})"
+        oc = lambda x: "Fail" if x[0] == "fail" else f"(Done {pt(x[1:3])})"
+        if c["kind"] == "newton":
+            items.append(f"k_newton {head} {pt(c['p'])} {pt(c['t'])} {oc(r)}")
+        elif c["kind"] == "point":
+            ms = "[" + "; ".join(METHOD_COQ[m] for m in c["methods"]) + "]"
+            items.append(f"k_point {head} {pt(c['p'])} {pt(c['t'])} {ms} {oc(c['integrate'])} {oc(c['line'])} {oc(r)}")
+        else:
+            ms = "[" + "; ".join(METHOD_COQ[m] for m in c["methods"]) + "]"
+            pts = "[" + "; ".join(pt(a) for a in c["pts"]) + "]"
+            if r[0] == "done":
+                if (r[2], r[3]) != (c["si"], c["ei"]):
+                    chk.fail("getRefined:indices", "getRefined does not carry startInd / endInd over to the new contour", {"case": c, "got": r[2:]})
+                exp = "(Some [" + "; ".join(pt(a) for a in r[1]) + "])"
+            else:
+                exp = "None"
+            items.append(f"k_contour {head} {pts} {ms} {'true' if c['skip'] else 'false'} {c['si']}%nat {c['ei']}%nat {exp}")
+    text = ("From Coq Require Import ZArith List Bool PrimFloat.\nFrom HT Require Import Field Model_Refine.\nImport ListNotations.\nLocal Open Scope float_scope.\n"
+            "Definition poly (a b c d e R Z : float) : float := a * R * R + b * Z * Z + c * R * Z + d * R + e * Z.\n"
+            "Definition peq (a b : @pt2 float) : bool := PrimFloat.eqb (pR a) (pR b) && PrimFloat.eqb (pZ a) (pZ b).\n"
+            "Definition oeq (a b : @outcome float) : bool := match a, b with Done p, Done q => peq p q | Fail, Fail => true | _, _ => false end.\n"
+            "Fixpoint leq (a b : list (@pt2 float)) : bool := match a, b with [], [] => true | x :: s, y :: t => peq x y && leq s t | _, _ => false end.\n"
+            "Definition nol : @pt2 float -> @pt2 float -> float -> float -> @outcome float := fun _ _ _ _ => Fail.\n"
+            "Definition noi : @pt2 float -> @outcome float := fun _ => Fail.\n"
+            "Definition k_newton a b c d e pv atol p t (x : @outcome float) : bool := oeq (refine_newton Fops (poly a b c d e) pv p t atol) x.\n"
+            "Definition k_point a b c d e pv atol p t ms (i l x : @outcome float) : bool :=\n"
+            "  oeq (refine_point Fops (poly a b c d e) pv (fun _ _ _ _ => l) (fun _ => i) ms p t 0x1.999999999999ap-4 atol) x.\n"
+            "Definition k_contour a b c d e pv atol pts ms skip si ei (x : option (list (@pt2 float))) : bool :=\n"
+            "  match get_refined Fops (poly a b c d e) pv nol noi ms pts 0x1.999999999999ap-4 atol skip si ei, x with\n"
+            "  | Some r, Some y => leq r y | None, None => true | _, _ => false end.\n"
+            "Definition rs : list bool := [\n" + ";\n".join(items) + "].\n"
+            "Eval vm_compute in (length (filter (fun b => b) rs), length rs).\n"
+            "Eval vm_compute in (map fst (filter (fun x => negb (snd x)) (combine (seq 0 (length rs)) rs))).\n")
+    rcq, oq, eq = common.coq_eval("cases_C01_refine", text)
+    m = re.search(r"\((\d+)(?:%nat)?,\s*(\d+)(?:%nat)?\)", oq.replace("\n", " "))
+    agree = int(m.group(1)) if m else 0
+    if rcq != 0 or not m or m.group(1) != m.group(2):
+        bad = re.findall(r"\d+", oq.split("=")[-1])[:5] if m else []
+        examples = [dict(case=cases[int(b)], implementation=res[int(b)]) for b in bad if int(b) < len(cases)]
+        # a disagreement means the model no longer describes the code (or the code changed behaviour): the tie is broken and the
+        # disagreeing inputs are the candidates for a failing input -- decided by the residual test below
+        chk.tie_broken("model:refine", f"model (PrimFloat) and implementation disagree on {len(items) - agree} of {len(items)} refinement cases: {(oq + eq)[-400:]}")
+        chk.notes["refine_disagreements"] = examples
+    # the property itself on the implementation's outcomes: an accepted Newton / tolerant-method result must be within the tolerance
+    nviol = 0
+    for c, r in zip(cases, res):
+        if r[0] != "done":
+            continue
+        coef = [float.fromhex(x) for x in c["coef"]]
+        pv, atol = float.fromhex(c["psival"]), float.fromhex(c["atol"])
+        bound = max(atol, atol * abs(pv))
+        def resid(a):
+            return abs(_poly(coef, float.fromhex(a[0]), float.fromhex(a[1])) - pv)
+        if c["kind"] == "newton" and not resid(r[1:3]) < bound * (1 + 1e-9) + 1e-300:
+            nviol += 1
+            chk.fail("refine:newton-accepts-off-surface", "refinePointNewton returned a point whose psi differs from psival by more than the tolerance", {"case": c, "got": r, "residual": resid(r[1:3]), "bound": bound})
+        if c["kind"] == "contour" and set(c["methods"]) == {"newton"}:
+            for j, a in enumerate(r[1]):
+                if c["skip"] and j in (c["si"], c["ei"]):
+                    continue
+                if not resid(a) < bound * (1 + 1e-9) + 1e-300:
+                    nviol += 1
+                    chk.fail("refine:contour-point-off-surface", "getRefined (newton only) returned a contour with a point off its flux surface", {"case": c, "index": j, "residual": resid(a), "bound": bound})
+                    break
+    chk.notes["refine_correspondence"] = {"cases": len(cases), "agree": agree, "outcomes": stats}
+    chk.sample({"refine_case": cases[0]})
+    return agree
+
+
 def run(chk):
     info = translate(chk)
     chk.trust("translate/slices.py (literal slices of fillRZ, X-point pins, reverse/transpose/refine skeleton of MeshRegion.__init__ as source fingerprints)",
               "hand model theories/Model_Region.v of followPerpendicular's recursion, tied by correspondence on a closed-form field",
-              "CONTRACT: PsiContour.refine puts every point of a contour on its psi value within tolerance (monitored on every corpus grid: the psi residual IS the property oracle)")
-    chk.assume("convergence of refinePoint / solve_ivp is observed, not proved")
+              "hand model theories/Model_Refine.v of refinePointNewton / refinePoint / getRefined, tied by a BIT-EXACT correspondence (PrimFloat instance evaluated by vm_compute) with the real methods on polynomial flux functions",
+              "CONTRACT: the 'integrate' fallback (solve_ivp) and the line search (brentq) are parameters of the model; with the default refine_methods a point accepted through the integrate fallback carries no tolerance test (theorem C01_default_methods) -- monitored on every corpus grid: the psi residual IS the property oracle")
+    chk.assume("convergence of the Newton iteration / solve_ivp is observed, not proved: the theorems say that what is ACCEPTED is within the tolerance and that the loop terminates")
     chk.coq()
     rng = random.Random(chk.seed)
     cases = follow_cases(rng, 150 if chk.tier == "quick" else 1500)
@@ -155,9 +332,10 @@ def run(chk):
         m = re.search(r"\((\d+)(?:%nat)?,\s*(\d+)(?:%nat)?\)", oq.replace("\n", " "))
         if rcq != 0 or not m or m.group(1) != m.group(2):
             chk.tie_broken("model:follow", f"the executable model does not return psivals order on the generated cases: {(oq + eq)[-500:]}")
+    nr = refine_correspondence(chk, 400 if chk.tier == "quick" else 3000)
     grids = corpus.get(tier=chk.tier)
     n = grid_oracle(chk, grids, info)
-    chk.count(evaluations=len(cases) + n, distinct=nf + n)
+    chk.count(evaluations=len(cases) + n + nr, distinct=nf + n + nr)
     chk.cov["rule"] = "followPerpendicular: random strictly monotone psivals (both directions, list or array) with psi0 at an end / inside / outside; grids: every point of every region at the four staggered locations"
     chk.notes["correspondence"] = {"follow_cases": len(cases), "follow_agree": nf, "grid_points_checked": n, "grids": [g.name for g in grids if g.ok]}
     chk.cov["traces_validated_against_impl"] = nf
